@@ -255,4 +255,21 @@ CHECKS = {
         "min_obs": {"hostile_messages": 10000, "canary_completed": 20, "hostile_exchanges": 500},
         "timeout": {"quick": 900, "thorough": 14000},
     },
+    "C17": {
+        "scenarios": [("C17-codec", "vreal"), ("C17-codec", "vreal", 1.0, {"GODEBUG": "cpu.bmi2=off"})],
+        "rule": "per case 200000 structured/random 64-bit (x, mask) pairs for PDEP/PEXT against a bit loop, and 1200 codec cases: body "
+                "lengths 1..64, multiples of C +-1 up to 4096, 32763/32764/32767/32768, random; 4 modes; masks of the required weight "
+                "(random, contiguous, alternating, extreme); 31 rotations; both polarities; each encoding compared byte for byte with "
+                "the bit-by-bit reference; near-valid strings (a flipped padding bit in a later chunk, mask weight +-1, extracted "
+                "length +-1/+-C, 1-8 trailing bytes, truncation, invalid mode/rotation, tail bits of the final partial chunk) offered to "
+                "the real decoder and to the reference validity predicate; low-entropy metadata validation on the receive path incl. "
+                "empty payloads; every case runs twice: default CPU path (BMI2, checked via cpu.X86.HasBMI2) and GODEBUG=cpu.bmi2=off",
+        "technique": "runtime monitor: bit-exact reference codec as oracle over generated bodies, parameters and malformed strings, on "
+                     "both CPU dispatch paths in separate processes",
+        "text": "Round trip, length law, byte-exact layout, decoder acceptance = documented validity, and PDEP/PEXT = bit loop, on the "
+                "instructions of this CPU and on the portable path.",
+        "note": "trusted: refcodec bit-by-bit codec; hook exports VerifLowEntropyEncode/Decode/VerifDataAckUnmarshal (thin wrappers)",
+        "design_ref": "DESIGN.md section 4, C17",
+        "min_obs": {"pdep_pext_pairs": 5000000, "codec_cases": 20000, "runs_with_bmi2": 1, "runs_portable_path": 1},
+    },
 }
